@@ -150,6 +150,11 @@ class ItemSession(object):
         url_data.post_data = post_data
 
         if replace:
+            if not parse_url_or_log(url):
+                # Logged and skipped like any other unparseable link; the
+                # table is not asked to remove text that is not a URL.
+                return
+
             self.app_session.factory['URLTable'].remove_many([url])
 
         self.add_url(url, url_properties, url_data)
